@@ -15,6 +15,7 @@ import (
 	"sort"
 	"strconv"
 	"strings"
+	"sync"
 	"testing"
 	"testing/synctest"
 	"time"
@@ -587,9 +588,14 @@ func genScript(t *rapid.T, o genOpts) vScript {
 
 // ---- determinism --------------------------------------------------------------------------------
 
-type detReader struct{ x uint64 }
+type detReader struct {
+	mu sync.Mutex
+	x  uint64
+}
 
 func (d *detReader) Read(p []byte) (int, error) {
+	d.mu.Lock()
+	defer d.mu.Unlock()
 	for i := range p {
 		d.x ^= d.x << 13
 		d.x ^= d.x >> 7
